@@ -156,6 +156,26 @@ func VerifC15_Step(n, rep, dt, k, op int) {
 	verifReach("done")
 }
 
+// c15SetsAgree: the five index sets are exactly what the channel list says.
+func c15SetsAgree(b Band, in *band) {
+	N := len(in.uplinkChannels)
+	all := b.GetUplinkChannelIndices()
+	en := b.GetEnabledUplinkChannelIndices()
+	dis := b.GetDisabledUplinkChannelIndices()
+	std := b.GetStandardUplinkChannelIndices()
+	cus := b.GetCustomUplinkChannelIndices()
+	verifAssert(len(all) == N, "all indices: one per channel (after any operation sequence)")
+	verifAssert(len(en)+len(dis) == N, "enabled and disabled partition all channels after any operation sequence (sizes)")
+	verifAssert(len(std)+len(cus) == N, "standard and custom partition all channels after any operation sequence (sizes)")
+	for i := 0; i < N; i++ {
+		c := in.uplinkChannels[i]
+		verifAssert(c15Contains(en, i) == c.enabled, "a channel is reported enabled exactly when it is")
+		verifAssert(c15Contains(dis, i) == !c.enabled, "a channel is reported disabled exactly when it is")
+		verifAssert(c15Contains(cus, i) == c.custom, "a channel is reported custom exactly when it is")
+		verifAssert(c15Contains(std, i) == !c.custom, "a channel is reported standard exactly when it is")
+	}
+}
+
 // Lookups by frequency and by frequency + data-rate return a matching channel; accessors never panic.
 func VerifC15_Lookup(n, rep, dt, k int) {
 	b, in, _ := c15State(n, rep, dt, k, -2, 0)
@@ -334,6 +354,37 @@ func VerifC15_MACEncodable(n, rep, dt int) {
 			verifAssert(back.UnmarshalBinary(raw) == nil, "DLChannelReq decodes")
 			verifAssert(back.Freq == c.Frequency, "DLChannelReq round trip")
 		}
+	}
+	verifReach("done")
+}
+
+// Two steps with every query made before, between and after them: anything an implementation derives from the
+// channel list and keeps (caches) must follow each operation. Standard channels: alternating enabled pattern,
+// custom channels: symbolic. op1, op2: 0 AddChannel, 1 Disable, 2 Enable, 3 none.
+func VerifC15_StepQueries(n, rep, dt, k, op1, op2 int) {
+	b, in, _ := c15State(n, rep, dt, k, 1<<30, 2)
+	c15SetsAgree(b, in)
+	for _, op := range []int{op1, op2} {
+		N := len(in.uplinkChannels)
+		switch op {
+		case 0:
+			if !in.supportsExtraChannels {
+				continue
+			}
+			verifAssert(b.AddChannel(verifNondetU32("freq"), verifNondetInt("minDR"), verifNondetInt("maxDR")) == nil, "AddChannel succeeds")
+		case 1, 2:
+			// one of the first two or last two channels
+			i := int(verifNondetU8("index") & 3)
+			if i >= 2 {
+				i = N - 4 + i
+			}
+			if op == 1 {
+				verifAssert(b.DisableUplinkChannelIndex(i) == nil, "Disable of an existing channel succeeds")
+			} else {
+				verifAssert(b.EnableUplinkChannelIndex(i) == nil, "Enable of an existing channel succeeds")
+			}
+		}
+		c15SetsAgree(b, in)
 	}
 	verifReach("done")
 }
